@@ -271,3 +271,20 @@ func (t *TopCloser) Close() error {
 	}
 	return nil
 }
+
+// FactoryAwareBare: like FactoryAware, without injection points of its own.
+type FactoryAwareBare struct {
+	Nm  string
+	Log *mon.Lifecycle
+}
+
+func (f *FactoryAwareBare) Naming() string                                      { return f.Nm }
+func (f *FactoryAwareBare) Bind(r *Run)                                         { f.Log = r.Log }
+func (f *FactoryAwareBare) PostProcessComponentFactory(container.Factory) error { return nil }
+func (f *FactoryAwareBare) PostProcessDefinitionRegistry(container.DefinitionRegistry, any, string) error {
+	return nil
+}
+func (f *FactoryAwareBare) Init() error {
+	f.Log.Add("init", f.Nm)
+	return nil
+}
